@@ -3,7 +3,9 @@
 (* reject, and generation of one script per transition of the abstract graph for replay on the real class (C09, C15, C16). *)
 EXTENDS OptObj, Json
 
-CONSTANTS Ids, Maps, MaxOps, Emit, Broken
+CONSTANTS Ids, Maps, MaxOps, Emit, Broken,
+          Alphabet,     \* names of the calls explored (a generator may restrict them to reach deeper histories)
+          ProblemIds    \* which of the three reference problems are used
 \* Broken: "none" | "flagsnodirty" (setOptimizationFlags forgets markLayoutDirty) | "smapnodirty" (setSpatialMap forgets it)
 \*         | "verbatim" (copy operations copy the active-map pointers verbatim) | "sharews" (copy shares the workspace)
 
@@ -11,7 +13,9 @@ VARIABLES hist, last
 mvars == <<opts, umaps, nextWs, hist, last>>
 
 FlagSets == {<<0>>, <<1>>}          \* abstract flag settings (two different ones)
-Problems == {[v |-> 1, n |-> 1, valid |-> TRUE], [v |-> 2, n |-> 2, valid |-> TRUE], [v |-> 3, n |-> 2, valid |-> FALSE]}
+AllProblems == {[v |-> 1, n |-> 1, valid |-> TRUE], [v |-> 2, n |-> 2, valid |-> TRUE], [v |-> 3, n |-> 2, valid |-> FALSE]}
+Problems == {p \in AllProblems : p.v \in ProblemIds}
+On(a) == a \in Alphabet
 
 H(rec) == hist' = Append(hist, rec)
 DoNew(id) == id \notin OLive /\ ONew(id) /\ H([op |-> "opt_new", obj |-> id]) /\ last' = <<"new", id>>
@@ -44,13 +48,14 @@ DoMapMutate(m) == MapMutate(m) /\ H([op |-> "map_mutate", map |-> m]) /\ last' =
 
 Init == OptInit /\ hist = <<>> /\ last = <<>>
 Next ==
-    \/ \E id \in Ids : DoNew(id) \/ DoInitEmpty(id) \/ DoDestroy(id) \/ DoRead(id, "get_dim") \/ DoRead(id, "init_guess")
-    \/ \E id \in Ids, p \in Problems : DoInit(id, p)
-    \/ \E id \in Ids, f \in FlagSets : DoFlags(id, f)
-    \/ \E id \in Ids, m \in Maps \cup {0} : DoSMap(id, m) \/ DoTMap(id, m)
-    \/ \E id \in Ids, own \in BOOLEAN : DoEval(id, own)
-    \/ \E d \in Ids, s \in Ids, how \in {"copy", "assign"} : DoCopy(d, s, how)
-    \/ \E m \in Maps : DoMapNew(m) \/ DoMapMutate(m)
+    \/ \E id \in Ids : (On("new") /\ DoNew(id)) \/ (On("init_empty") /\ DoInitEmpty(id)) \/ (On("destroy") /\ DoDestroy(id))
+                        \/ (On("get_dim") /\ DoRead(id, "get_dim")) \/ (On("init_guess") /\ DoRead(id, "init_guess"))
+    \/ On("init") /\ \E id \in Ids, p \in Problems : DoInit(id, p)
+    \/ On("flags") /\ \E id \in Ids, f \in FlagSets : DoFlags(id, f)
+    \/ \E id \in Ids, m \in Maps \cup {0} : (On("smap") /\ DoSMap(id, m)) \/ (On("tmap") /\ DoTMap(id, m))
+    \/ On("evaluate") /\ \E id \in Ids, own \in BOOLEAN : DoEval(id, own)
+    \/ \E d \in Ids, s \in Ids, how \in {"copy", "assign"} : On(how) /\ DoCopy(d, s, how)
+    \/ \E m \in Maps : (On("map_new") /\ DoMapNew(m)) \/ (On("map_mutate") /\ DoMapMutate(m))
 Spec == Init /\ [][Next]_mvars
 
 Bound == Len(hist) <= MaxOps
